@@ -310,6 +310,48 @@ def configured (conf : List QC) (p : String) : Bool := conf.any (fun c => c.path
 def markMissing (t : Tree) (conf : List QC) : Tree :=
   t.map (fun q => if q.managed && !(configured conf q.path) then { q with state := q.state.remove } else q)
 
+/-- the Remove event on one queue object (doRemoveQueue) -/
+def RQ.mark (q : RQ) : RQ := { q with state := q.state.remove }
+
+/-- Queue.MarkQueueForRemoval on the queue at path `p`, as the code walks: nothing at an unmanaged queue (the walk does
+    not go below it either); at a managed queue the Remove event on the queue itself, then the same call on every child
+    it has — a leaf has none. The fuel is the depth the walk may reach (callers pass the number of queues). -/
+def markDown : Nat → Tree → String → Tree
+  | 0, t, _ => t
+  | fuel + 1, t, p =>
+    match t.find p with
+    | none => t
+    | some q =>
+      if !q.managed then t
+      else ((t.filter (fun c => decide (c.parent = p))).map (·.path)).foldl (fun acc cp => markDown fuel acc cp) (t.upd p RQ.mark)
+
+/-- the loops that close the levels of updateQueues: for every visited (configured) queue, MarkQueueForRemoval on each of
+    its children the configuration does not name. (The code runs the loop of a level when the walk leaves that level;
+    the walk itself never reads the state of a queue the configuration does not name, so the marks are collected here.) -/
+def markRec (t : Tree) (conf : List QC) : Tree :=
+  conf.foldl (fun acc c =>
+    ((acc.filter (fun ch => decide (ch.parent = c.path) && !(configured conf ch.path))).map (·.path)).foldl
+      (fun a r => markDown t.length a r) acc) t
+
+/-- updateQueues with the marking as the code performs it (`updateTree` below uses the characterisation `markMissing`;
+    YkProofs/ReloadMark.lean proves the two equal on every well-formed tree) -/
+def updateTreeRec (t : Tree) (conf : List QC) : Tree × Option CErr :=
+  match applyAll t conf with
+  | (t', some e) => (t', some e)
+  | (t', none) => (markRec t' conf, none)
+
+/-- parents come first and are present, paths are non-empty and pairwise distinct (`seen` = paths so far) -/
+def pfAux (seen : List String) : Tree → Bool
+  | [] => true
+  | q :: r =>
+    (decide (q.parent = "") || seen.contains q.parent) && !(seen.contains q.path) && !(decide (q.path = "")) && pfAux (q.path :: seen) r
+
+def parentsFirst (t : Tree) : Bool := pfAux [] t
+
+/-- W0: the parent of a managed queue is managed (nothing managed below an unmanaged queue) -/
+def w0 (t : Tree) : Bool :=
+  t.all (fun x => !x.managed || t.all (fun y => !(decide (y.path = x.parent)) || y.managed))
+
 /-- updateQueues over the whole configuration (an error return skips the marking of the enclosing levels) -/
 def updateTree (t : Tree) (conf : List QC) : Tree × Option CErr :=
   match applyAll t conf with
@@ -501,5 +543,9 @@ def parentsAgree (t : Tree) (conf : List QC) : Bool :=
 
 /-- no queue below the top queue is NAMED root -/
 def noNamedRoot (conf : List QC) : Bool := conf.all (fun c => !(c.name = "root") || c.parent = "")
+
+/-- every queue names its parent by its own path without the last part -/
+def pathParents (t : Tree) : Bool := t.all (fun q => decide (q.parent = parentPath q.path))
+def confPaths (conf : List QC) : Bool := conf.all (fun c => decide (c.parent = parentPath c.path) && !(decide (c.path = "")))
 
 end Yk.Reload
